@@ -38,6 +38,12 @@ func (c Case) Query() string {
 		sb.WriteString(p.Filler)
 		if p.N != "" {
 			sb.WriteString("$" + p.N)
+			// Rep further repetitions of the same $n marker
+			for i := 0; i < p.Rep; i++ {
+				sb.WriteString(p.Sep)
+				sb.WriteString("$" + p.N)
+			}
+			continue
 		}
 		for i := 0; i < p.Rep; i++ {
 			sb.WriteString("?")
